@@ -5,6 +5,6 @@ From Coq Require Import ExtrOcamlBasic.
 From C03 Require Import Model.
 Extraction Language OCaml.
 Cd "ocaml".
-Extraction "model.ml" mulZ addZ subZ negZ axpyZ axmyZ maxpyZ maxpyinZ reduceZ invZ divZ divinZ isUnitZ gcdextZ mOneZ
+Extraction "model.ml" mulZ addZ addinZ subZ negZ axpyZ axmyZ maxpyZ maxpyinZ reduceZ invZ divZ divinZ isUnitZ gcdextZ mOneZ
   precomp_pZ mul_precomp_pZ mul_precomp_bZ.
 Cd "..".
